@@ -86,7 +86,7 @@ def run(tier, seed):
         "traces_validated_against_impl": ops.get("new", 0),
         "samples": [x for x in rows[:40] if x["op"] in ("verify", "batch")][:3],
         "evaluations": len(rows), "distinct_nontrivial": len({str(x.get("key")) + str(x.get("vu")) for x in rows if x["op"] in ("verify", "batch")}),
-        "rule": "seeded operation sequences (sign, verify, batch-verify, combine, overlapping verify/batch-verify calls for one signature, each started while "
+        "rule": "seeded operation sequences (sign, verify, batch-verify, combine, list signatures re-cut at another entry boundary, overlapping verify/batch-verify calls for one signature, each started while "
                 "the earlier ones are inside the scheme's verification; replays with altered message, batch, view and signer labels) on a cached "
                 "(capacity 1..4 or 50) and an uncached real Authority of the same replica, ECDSA/EdDSA/BLS; distinct = distinct (cache key, verdict)",
         "ops": ops, "conformance": "ok" if not drift else "drift %s" % (drift,),
@@ -96,7 +96,7 @@ def run(tier, seed):
                      "invalid": sum(1 for x in rows if x["op"] == "overlap" and not x["vu"])},
         "checker_cmd": rt.cmd,
     }, time.time() - t0, violations=len(v.violations),
-        assumptions=["signature objects are replayed with their entry boundaries intact (wire-level re-splitting of concatenated bytes is not generated)"])
+        assumptions=["re-cut list signatures move one entry boundary (a random number of bytes from the end of one entry to the start of the next)"])
     return rc
 
 
